@@ -86,6 +86,10 @@ const fermatLint = "e_rsa_fermat_factorization"
 var factorRe = regexp.MustCompile(`p: (\d+); q: (\d+)`)
 
 func judgeC16(rec *stats.Rec, c c16Case) (string, string) {
+	return apiGuard(func() (string, string) { return judgeC16Inner(rec, c) })
+}
+
+func judgeC16Inner(rec *stats.Rec, c c16Case) (string, string) {
 	var cfg *string
 	rounds := 100 // documented default
 	if c.Rounds != nil {
